@@ -48,6 +48,23 @@ class Namespace(typing.Generic[T]):
         """
         raise NotImplementedError()  # pragma: no cover
 
+    def is_global_in_functions(self, name: str) -> bool:
+        """
+        Whether a name is global for the code of this function: declared
+        global here or in an enclosing function. A name that is only used by a
+        lambda/comprehension of a function is not in the symbol table of that
+        function, the enclosing functions decide then.
+        """
+        nsp: Namespace = self
+        while not isinstance(nsp, NamespaceGlobal):
+            if isinstance(nsp, NamespaceFunction):
+                try:
+                    return nsp.symt.lookup(name).is_global()
+                except KeyError:
+                    pass
+            nsp = nsp.outer_nsp
+        return False
+
     def get_load_declared_global(self, name: str) -> expr:
         """
         Load a name that this namespace declares `global`.
@@ -232,20 +249,7 @@ class NamespaceFunction(Namespace[symtable.Function]):
                 ctx=Load(),
             )
         else:  # globals or locals except free
-            # global here: declared here or in an enclosing function. A name that
-            # is only used by a lambda/comprehension of this function is not in
-            # this symbol table, the enclosing functions decide then.
-            is_global = False
-            nsp: Namespace = self
-            while not isinstance(nsp, NamespaceGlobal):
-                if isinstance(nsp, NamespaceFunction):
-                    try:
-                        is_global = nsp.symt.lookup(name).is_global()
-                        break
-                    except KeyError:
-                        pass
-                nsp = nsp.outer_nsp
-            if is_global:
+            if self.is_global_in_functions(name):
                 return self.get_load_declared_global(name)
             return Name(id=name, ctx=Load())
 
@@ -361,6 +365,8 @@ class NamespaceClass(Namespace[symtable.Class]):
                     slice=Constant(value=name),
                     ctx=Load(),
                 )
+            if self.outer_nsp.is_global_in_functions(name):
+                return self.get_load_declared_global(name)
             return Name(id=name, ctx=Load())
 
         symbol = self.symt.lookup(name)
